@@ -166,6 +166,25 @@ public class Empty {
     private int n;
 }
 `},
+	{"BaseRepo", "interface-with-override", `package a;
+
+import java.util.List;
+
+public interface BaseRepo extends ReadRepo {
+    @Override
+    List<String> findAll();
+
+    int CONSTANT = 1;
+}
+`},
+	{"OrderRepo", "interface-without-override", `package a;
+
+public interface OrderRepo {
+    int count();
+
+    String findName(long id);
+}
+`},
 	{"Status", "enum-with-members", `package a;
 
 import q.B;
@@ -324,9 +343,9 @@ func c07Setup(dir string) *c07Env {
 	engine.Reset()
 	// a small cyclic call model for the graph operations
 	g := GModel{Methods: []GMethod{
-		{Pkg: "p", Class: "A", Name: "a", Calls: []GCall{{"p", "A", "b"}, {"p", "A", "b"}}},
-		{Pkg: "p", Class: "A", Name: "b", Calls: []GCall{{"p", "A", "c"}}},
-		{Pkg: "p", Class: "A", Name: "c", Calls: []GCall{{"p", "A", "a"}, {"p", "A", "c"}}},
+		{Pkg: "p", Class: "A", Name: "a", Calls: []GCall{{Pkg: "p", Class: "A", Name: "b"}, {Pkg: "p", Class: "A", Name: "b"}}},
+		{Pkg: "p", Class: "A", Name: "b", Calls: []GCall{{Pkg: "p", Class: "A", Name: "c"}}},
+		{Pkg: "p", Class: "A", Name: "c", Calls: []GCall{{Pkg: "p", Class: "A", Name: "a"}, {Pkg: "p", Class: "A", Name: "c"}}},
 	}}
 	e.graph = g.ToDeps()
 	c07env = e
